@@ -129,7 +129,10 @@ def c_nomval(T):
         e = f"result == [0] * {n}"
     else:
         return None
-    return Contract(q, params={"att": ("const", T)}, ensures=[("nominal", e)], raises={}, modifies=[])
+    ens = [("nominal", e)]
+    if L == "R":
+        ens.append(("positive-zero", "str(result) == '0.0'"))  # -0.0 == 0.0, but it encodes with the sign bit set
+    return Contract(q, params={"att": ("const", T)}, ensures=ens, raises={}, modifies=[])
 
 
 def install(reg):
